@@ -96,6 +96,9 @@ const (
 	c04Lease     = uint64(1) << 6
 )
 
+// fee floor, a usual rate, a fee spike (sat per kilo-weight)
+var c04FeeRates = []uint64{253, 2500, 100000}
+
 var c04ChanTypes = []uint64{
 	0,                             // legacy
 	c04Tweakless,                  // static remote key
@@ -269,8 +272,11 @@ func c04Breach(nHtlc int) {
 	height := vU64("revokedHeight")
 	vAssume(height <= 1<<48-1) // C04-K1: heights above are refused by SetStateNumHint
 
-	feeRaw := vU64("feePerKw")
-	vAssume(feeRaw >= 253 && feeRaw <= 0xffffffff) // fee floor; feerate_per_kw is a u32
+	// The fee rate is a concrete case split: with a symbolic rate the order of
+	// the outputs after fee deduction needs 64-bit multiply/divide reasoning in
+	// every query (measured: minutes per query). Value-level fee arithmetic
+	// with a symbolic rate is C05-K1's / C01's subject.
+	feeRaw := c04FeeRates[vChoice("feeRate", len(c04FeeRates))]
 	feePerKw := chainfee.SatPerKWeight(feeRaw)
 	ourBal, theirBal := c04Msat("ourBalance"), c04Msat("theirBalance")
 	total := ourBal + theirBal
